@@ -108,3 +108,170 @@ theorem growSpan_inside (u : ITier Int) (es : List (Iv Int)) (hd : Disj es) (hp 
     | some g =>
       have := hhi g (List.mem_of_getLast? hl)
       simp only [show ¬ u.hi < g.e by omega, show ¬ f.s < u.lo by omega, if_false]
+
+/-! ## the no-shrink characterisation -/
+
+/-- what remains of one interval after erasing the region `[a, b]` -/
+def pieces (a b : Int) (mode : EraseMode) (iv : Iv Int) : List (Iv Int) :=
+  if ov a b iv then
+    (if mode = .truncate then
+      (if iv.s < a then [⟨iv.s, a, iv.l⟩] else []) ++ (if b < iv.e then [⟨b, iv.e, iv.l⟩] else [])
+    else [])
+  else [iv]
+
+/-- `t'` is `t` with the region erased (no shrinking): well-formed, same name and span, and its entries are
+exactly the pieces of `t`'s entries -/
+structure IsErased (a b : Int) (mode : EraseMode) (t t' : ITier Int) : Prop where
+  wf : t'.WF
+  name : t'.name = t.name
+  lo : t'.lo = t.lo
+  hi : t'.hi = t.hi
+  mem : ∀ x, x ∈ t'.es ↔ ∃ iv ∈ t.es, x ∈ pieces a b mode iv
+
+theorem pieces_within (a b : Int) (hab : a < b) (mode : EraseMode) (iv x : Iv Int) (hiv : iv.s < iv.e)
+    (hx : x ∈ pieces a b mode iv) : iv.s ≤ x.s ∧ x.e ≤ iv.e ∧ x.s < x.e ∧ x.l = iv.l ∧ (x.e ≤ a ∨ b ≤ x.s) := by
+  obtain ⟨s, e, l⟩ := iv
+  unfold pieces ov at hx
+  simp only at hiv hx
+  by_cases h : s < b ∧ a < e
+  · simp only [h, and_self, decide_true, if_true] at hx
+    by_cases hm : mode = .truncate
+    · simp only [hm, if_true, List.mem_append] at hx
+      rcases hx with hx | hx
+      · split at hx
+        · simp only [List.mem_singleton] at hx; subst hx
+          exact ⟨by simp only; omega, by simp only; omega, by simp only; omega, rfl, by simp only; omega⟩
+        · simp at hx
+      · split at hx
+        · simp only [List.mem_singleton] at hx; subst hx
+          exact ⟨by simp only; omega, by simp only; omega, by simp only; omega, rfl, by simp only; omega⟩
+        · simp at hx
+    · simp [hm] at hx
+  · simp only [h, decide_false, Bool.false_eq_true, if_false, List.mem_singleton] at hx
+    subst hx
+    exact ⟨by simp only; omega, by simp only; omega, by simp only; omega, rfl, by simp only; omega⟩
+
+/-- the members described by `pieces` over a well-formed list are positive, pairwise disjoint and stripped -/
+theorem pieces_set_wf (a b : Int) (hab : a < b) (mode : EraseMode) (es : List (Iv Int))
+    (hp : Pos es) (hd : Disj es) (hs : Stripped es) (l : List (Iv Int)) (hnd : l.Nodup)
+    (hl : ∀ x, x ∈ l → ∃ iv ∈ es, x ∈ pieces a b mode iv) :
+    Pos l ∧ SetDisj l ∧ Stripped l := by
+  have hnodup : es.Nodup := nodup_of_wf es hp hd.setDisj
+  refine ⟨?_, ?_, ?_⟩
+  · intro x hx
+    obtain ⟨iv, hiv, hxp⟩ := hl x hx
+    exact (pieces_within a b hab mode iv x (hp iv hiv) hxp).2.2.1
+  · unfold SetDisj
+    refine (List.pairwise_iff_forall_sublist.2 ?_)
+    intro x y hxy
+    have hx : x ∈ l := hxy.subset (by simp)
+    have hy : y ∈ l := hxy.subset (by simp)
+    have hne : x ≠ y := by
+      intro h; subst h
+      have := hnd.sublist hxy
+      simp at this
+    obtain ⟨iv, hiv, hxp⟩ := hl x hx
+    obtain ⟨jv, hjv, hyp⟩ := hl y hy
+    have h1 := pieces_within a b hab mode iv x (hp iv hiv) hxp
+    have h2 := pieces_within a b hab mode jv y (hp jv hjv) hyp
+    by_cases hij : iv = jv
+    · subst hij
+      -- two different pieces of the same interval: one ends at a, the other starts at b
+      obtain ⟨s, e, l'⟩ := iv
+      unfold pieces ov at hxp hyp
+      simp only at hxp hyp
+      by_cases h : s < b ∧ a < e
+      · simp only [h, and_self, decide_true, if_true] at hxp hyp
+        by_cases hm : mode = .truncate
+        · simp only [hm, if_true, List.mem_append] at hxp hyp
+          rcases hxp with hxp | hxp <;> rcases hyp with hyp | hyp <;>
+            (split at hxp <;> split at hyp <;> simp only [List.mem_singleton, List.not_mem_nil] at hxp hyp) <;>
+            first
+              | (subst hxp; subst hyp; exact absurd rfl hne)
+              | (subst hxp; subst hyp; simp only; omega)
+              | exact absurd hxp id
+              | exact absurd hyp id
+        · simp [hm] at hxp
+      · simp only [h, decide_false, Bool.false_eq_true, if_false, List.mem_singleton] at hxp hyp
+        subst hxp; subst hyp; exact absurd rfl hne
+    · -- pieces of different intervals inherit their disjointness
+      have hdis : iv.e ≤ jv.s ∨ jv.e ≤ iv.s := by
+        have := hd.setDisj
+        rcases List.pairwise_iff_forall_sublist.1 this with hpw
+        -- use membership-based disjointness
+        have key : ∀ (l : List (Iv Int)), SetDisj l → ∀ p ∈ l, ∀ q ∈ l, p ≠ q → p.e ≤ q.s ∨ q.e ≤ p.s := by
+          intro l hl
+          induction l with
+          | nil => intro p hp'; simp at hp'
+          | cons z zs ih =>
+            have hz := List.pairwise_cons.1 hl
+            intro p hp' q hq' hpq
+            rcases List.mem_cons.1 hp' with rfl | hp''
+            · rcases List.mem_cons.1 hq' with rfl | hq''
+              · exact absurd rfl hpq
+              · exact hz.1 q hq''
+            · rcases List.mem_cons.1 hq' with rfl | hq''
+              · exact (hz.1 p hp'').symm
+              · exact ih hz.2 p hp'' q hq'' hpq
+        exact key es this iv hiv jv hjv hij
+      omega
+  · intro x hx
+    obtain ⟨iv, hiv, hxp⟩ := hl x hx
+    rw [(pieces_within a b hab mode iv x (hp iv hiv) hxp).2.2.2.1]
+    exact hs iv hiv
+
+/-- one re-insertion step of `eraseRegion`: the remnant collides with nothing, so it is simply added -/
+theorem insert_step (u : ITier Int) (x : Iv Int) (hx : x.s < x.e) (hstr : pyStrip x.l = x.l)
+    (hp : Pos u.es) (hd : SetDisj u.es)
+    (hfree : ∀ iv ∈ u.es, iv.e ≤ x.s ∨ x.e ≤ iv.s)
+    (hlo : ∀ iv ∈ u.es, u.lo ≤ iv.s) (hhi : ∀ iv ∈ u.es, iv.e ≤ u.hi) (hxlo : u.lo ≤ x.s) (hxhi : x.e ≤ u.hi) :
+    ∃ u', u.insertEntry x .error = .ok u' ∧ u'.name = u.name ∧ u'.lo = u.lo ∧ u'.hi = u.hi ∧
+      (∀ y, y ∈ u'.es ↔ y ∈ u.es ∨ y = x) ∧ Disj u'.es ∧ Pos u'.es := by
+  have hpos : Pos (u.es ++ [x]) := by
+    intro y hy
+    rcases List.mem_append.1 hy with h | h
+    · exact hp y h
+    · simp only [List.mem_singleton] at h; subst h; exact hx
+  have hsd : SetDisj (u.es ++ [x]) := by
+    unfold SetDisj
+    rw [List.pairwise_append]
+    refine ⟨hd, by simp, ?_⟩
+    intro p hpm q hq
+    simp only [List.mem_singleton] at hq; subst hq
+    exact hfree p hpm
+  have hdisj := disj_sortIvs (u.es ++ [x]) hpos hsd
+  have hpos' : Pos (sortIvs (u.es ++ [x])) := pos_perm hpos (sortIvs_perm _).symm
+  have hmem : ∀ y, y ∈ sortIvs (u.es ++ [x]) ↔ y ∈ u.es ∨ y = x := fun y => mem_sort_append
+  refine ⟨growSpan u (sortIvs (u.es ++ [x])), insertEntry_free u x .error hx hstr hp hfree, ?_⟩
+  rw [growSpan_inside u _ hdisj hpos'
+    (by intro iv hiv; rcases (hmem iv).1 hiv with h | h; exact hlo iv h; subst h; exact hxlo)
+    (by intro iv hiv; rcases (hmem iv).1 hiv with h | h; exact hhi iv h; subst h; exact hxhi)]
+  exact ⟨rfl, rfl, rfl, hmem, hdisj, hpos'⟩
+
+theorem setDisj_mem {l : List (Iv Int)} (hl : SetDisj l) :
+    ∀ p ∈ l, ∀ q ∈ l, p ≠ q → p.e ≤ q.s ∨ q.e ≤ p.s := by
+  induction l with
+  | nil => intro p hp'; simp at hp'
+  | cons z zs ih =>
+    have hz := List.pairwise_cons.1 hl
+    intro p hp' q hq' hpq
+    rcases List.mem_cons.1 hp' with rfl | hp''
+    · rcases List.mem_cons.1 hq' with rfl | hq''
+      · exact absurd rfl hpq
+      · exact hz.1 q hq''
+    · rcases List.mem_cons.1 hq' with rfl | hq''
+      · exact (hz.1 p hp'').symm
+      · exact ih hz.2 p hp'' q hq'' hpq
+
+theorem SetDisj.of_subset_nodup {l l' : List (Iv Int)} (h : SetDisj l) (hs : ∀ x ∈ l', x ∈ l) (hnd : l'.Nodup) :
+    SetDisj l' := by
+  unfold SetDisj
+  refine List.pairwise_iff_forall_sublist.2 ?_
+  intro x y hxy
+  have hx : x ∈ l' := hxy.subset (by simp)
+  have hy : y ∈ l' := hxy.subset (by simp)
+  have hne : x ≠ y := by
+    intro h; subst h
+    have := hnd.sublist hxy
+    simp at this
+  exact setDisj_mem h x (hs x hx) y (hs y hy) hne
